@@ -1415,6 +1415,47 @@ fn parse_caps(s: &str) -> [usize; 6] {
 static SAFE_DOUBLE_FREE: AtomicBool = AtomicBool::new(false);
 static SAFE_SMALL_BUF: AtomicBool = AtomicBool::new(false);
 
+/// chewing_phone_to_bopomofo over every u16 and four buffer lengths around the needed size: the return
+/// value is the needed size, nothing is written unless the buffer is large enough, nothing is written
+/// past the stated length, and what is written is NUL-terminated valid UTF-8 (implementation-side oracle)
+fn phone_sweep(out: &mut Out) -> u64 {
+    let mut n = 0u64;
+    for phone in 0u32..65536 {
+        let need = unsafe { chewing_phone_to_bopomofo(phone as u16, null_mut(), 0) };
+        if need < 0 {
+            continue;
+        }
+        let need = need as usize;
+        for len in [0usize, need.saturating_sub(1), need, need + 3] {
+            let mut buf = vec![0xAAu8; len + 8];
+            let r = unsafe { chewing_phone_to_bopomofo(phone as u16, buf.as_mut_ptr().cast(), len as u16) };
+            n += 1;
+            let mut bad = None;
+            if r as usize != need {
+                bad = Some(format!("returns {} then {}", need, r));
+            } else if buf[len..].iter().any(|x| *x != 0xAA) {
+                bad = Some("wrote past the stated length".to_string());
+            } else if len < need && buf[..len].iter().any(|x| *x != 0xAA) {
+                bad = Some("wrote into a buffer that is too small".to_string());
+            } else if len >= need {
+                match buf[..len].iter().position(|x| *x == 0) {
+                    Some(z) if z + 1 == need && std::str::from_utf8(&buf[..z]).is_ok() => {}
+                    _ => bad = Some("not a NUL-terminated UTF-8 string of the announced size".to_string()),
+                }
+            }
+            if let Some(d) = bad {
+                if out.failures.len() < 50 {
+                    out.failures.push(format!(
+                        "{{\"oracle\":\"phone-to-bopomofo\",\"seq\":0,\"call\":0,\"detail\":{}}}",
+                        json_str(&format!("phone {} len {}: {}", phone, len, d))
+                    ));
+                }
+            }
+        }
+    }
+    n
+}
+
 fn execute(seqs: &[Seq], sysdir: &str, workdir: &str, prefix: &str, caps: [usize; 6]) -> i32 {
     let work = PathBuf::from(workdir).join(format!("p{}", std::process::id()));
     let _ = std::fs::remove_dir_all(&work);
@@ -1430,6 +1471,10 @@ fn execute(seqs: &[Seq], sysdir: &str, workdir: &str, prefix: &str, caps: [usize
     let mut sf = std::io::BufWriter::new(std::fs::File::create(format!("{prefix}.seqs")).unwrap());
     let mut total_calls = 0;
     let mut distinct = std::collections::BTreeSet::new();
+    if std::env::var("VERIF_C15_PHONE_SWEEP").is_ok() {
+        let n = phone_sweep(&mut out);
+        out.stats.insert("phone_to_bopomofo_calls".to_string(), n);
+    }
     for (i, q) in seqs.iter().enumerate() {
         let m0 = MISMATCH.load(Ordering::SeqCst);
         let f0 = out.failures.len();
@@ -1497,7 +1542,7 @@ fn main() {
         Some("gen") => {
             let tier = &args[2];
             let seed = seed_from_env();
-            let (n, maxc) = if tier == "thorough" { (1500, 120) } else { (160, 60) };
+            let (n, maxc) = if tier == "thorough" { (4000, 120) } else { (160, 60) };
             let mut seqs = fixed_seqs();
             seqs.extend(witness_seqs());
             for i in 0..n {
@@ -1517,7 +1562,7 @@ fn main() {
             let mut seqs = witness_seqs();
             if tier == "thorough" {
                 let seed = seed_from_env();
-                for i in 0..300 {
+                for i in 0..600 {
                     let mut rng = Rng::new(seed.wrapping_mul(7_000_003).wrapping_add(i as u64));
                     let m = 10 + rng.below(20) as usize;
                     seqs.push(gen_seq(&mut rng, m));
